@@ -329,7 +329,7 @@ func (it *Interp) Join(t, f Value, gate *Bit, extra Deps) Value {
 		}
 	case *Slice:
 		if b, ok := f.(*Slice); ok && a.Obj == b.Obj && a.Path == b.Path {
-			return &Slice{Obj: a.Obj, Path: a.Path, Off: JoinInt(a.Off, b.Off, gate, extra), Len: JoinInt(a.Len, b.Len, gate, extra), Elem: a.Elem}
+			return &Slice{Obj: a.Obj, Path: a.Path, Off: JoinInt(a.Off, b.Off, gate, extra), Len: JoinInt(a.Len, b.Len, gate, extra), Elem: a.Elem, CapKnown: a.CapKnown && b.CapKnown && a.Cap == b.Cap, Cap: a.Cap}
 		}
 	case *Iface:
 		if b, ok := f.(*Iface); ok && types.Identical(a.T, b.T) {
